@@ -202,8 +202,9 @@ impl SyncClient for Client {
         let mut w = self.server.write().await;
         let s = w.as_mut().ok_or(HErr::Other("no account".into()))?;
         let (packet, _outcome) =
-            server_helpers::sync_account::<_, HErr>(packet, s).await?;
+            server_helpers::sync_account::<_, HErr>(packet, s).await.map_err(|e| { if std::env::var("SDEBUG").is_ok() { eprintln!("server sync_account error: {e:?}"); } e })?;
         self.tap(&packet).await;
+        if std::env::var("SDEBUG").is_ok() { eprintln!("d{} sync reply: account={:?} folders={:?} compare={:?}", self.device, packet.diff.account.as_ref().map(|a| matches!(a, sos_sync::MaybeDiff::Diff(_))), packet.diff.folders.iter().map(|(k, v)| (k.to_string()[..6].to_string(), matches!(v, sos_sync::MaybeDiff::Diff(_)))).collect::<Vec<_>>(), packet.compare); }
         Ok(packet)
     }
 
